@@ -903,6 +903,9 @@ fn residues_small<const P: i64>(ctx: &mut Ctx) {
         }
         for a in 0..P {
             let ra = R::<P>::from(a);
+            if val(-&ra) != (-a).rem_euclid(P) || ra.is_one() != (a == 1) {
+                return Some(format!("-&{} or is_one wrong", a));
+            }
             if val(-ra) != (-a).rem_euclid(P) {
                 return Some(format!("-{} = {}", a, val(-ra)));
             }
@@ -916,6 +919,13 @@ fn residues_small<const P: i64>(ctx: &mut Ctx) {
                 }
                 if val(&ra + &rb) != (a + b) % P || val(&ra - &rb) != (a - b).rem_euclid(P) || val(&ra * &rb) != (a * b) % P {
                     return Some(format!("reference +,-,* wrong for {}, {}", a, b));
+                }
+                // mixed operand forms (reference on the left, value on the right)
+                if val(&ra + rb) != (a + b) % P || val(&ra - rb) != (a - b).rem_euclid(P) || val(&ra * rb) != (a * b) % P {
+                    return Some(format!("mixed-form +,-,* wrong for {}, {}", a, b));
+                }
+                if b != 0 && val(&ra / rb) != val(ra / rb) {
+                    return Some(format!("mixed-form / wrong for {}, {}", a, b));
                 }
                 if b != 0 {
                     let q = ra / rb;
